@@ -4,11 +4,11 @@ CONSTANTS
   ZeroAddr = 0
   QN = 2
   QIndirect = FALSE
-  QEventIdx = TRUE
-  MaxBufs = 1
-  Adversary = FALSE
-  WithNotify = TRUE
-  Bug = "none"
+  QEventIdx = FALSE
+  MaxBufs = 3
+  Adversary = TRUE
+  WithNotify = FALSE
+  Bug = "no_token_check"
 INVARIANTS
   TypeOK
   C01_Disjoint
@@ -23,7 +23,6 @@ INVARIANTS
   ImplAgrees
   ImplNotifyOk
   FreeListExact
-  DevHeldDescribed
 PROPERTIES
   C02_IdxMonotone
 CHECK_DEADLOCK FALSE
